@@ -32,8 +32,8 @@ from harness.core import (MachineryError, REPO, model_check, read_events, requir
 # (the recorded proof of `trivial` needs the theorem `trivial`); the property quantifies over theories that contain it
 QUICK_THEORIES = ["logic", "set"]
 MORE = ["nat", "function", "list", "int", "real", "expr", "hoare"]
-SHAPES = ["sibling-binders", "exists-twice", "cut-merged", "exists-nested", "intro-known", "redex-fact", "closed-arith"]
-NGEN = 8        # generators of sessions in harness/drivers/c13.py (one of them: free walks)
+SHAPES = ["sibling-binders", "exists-twice", "cut-merged", "exists-nested", "intro-known", "redex-fact", "closed-arith", "shadow"]
+NGEN = 9        # generators of sessions in harness/drivers/c13.py (one of them: free walks)
 LE_OFFSET = 10 ** 6
 
 
@@ -68,10 +68,10 @@ def run(rep, tier):
     theories = list(QUICK_THEORIES)
     if quick:
         theories.append(rnd.choice(MORE[:5]))
-        n_per, nsess, max_steps = 8, 64, 20        # quick: sampled theorems with at most 20 recorded steps
+        n_per, nsess, max_steps = 8, 72, 20        # quick: sampled theorems with at most 20 recorded steps
     else:
         theories += MORE
-        n_per, nsess, max_steps = 60, 800, 0
+        n_per, nsess, max_steps = 60, 900, 0
     evp = wd / "edit.ndjson"
     # the library / session driver runs while TLC works on the line-edit layer
     pool = ThreadPoolExecutor(max_workers=1)
